@@ -9,7 +9,7 @@ from __future__ import annotations
 import uuid
 from urllib.parse import parse_qsl, unquote, urlsplit
 
-from ..monitors.reach import Reach
+from ..monitors.reach import Reach, opt
 
 ID = "C04"
 RULE = (
@@ -22,7 +22,7 @@ RULE = (
     "(rule, configuration, values) hashes"
 )
 REQUIRED_OBS = ["law1_checked", "law2_checked", "converter_pairs_checked", "reach:Rule._compile_builder", "reach:MapAdapter.build",
-                "mode:plain", "mode:subdomain", "mode:host", "mode:submount", "mode:subdomainfactory", "with_defaults"]
+                "mode:plain", "mode:subdomain", "mode:host", "mode:submount", "mode:subdomainfactory", "mode:default_subdomain", "with_defaults"]
 ASSUMPTIONS = [
     "values exclude C0 controls and DEL (the path converter's regex does not cross a newline; the property speaks of Unicode, spaces and URL-reserved characters)",
     "path values have no empty segment and do not start or end with '/'",
@@ -65,6 +65,8 @@ CONV = {
     "int(signed=True)": lambda rng: rng.choice([0, -7, 42, -(10**9), -rng.randrange(10**6)]),
     "int(fixed_digits=3)": lambda rng: rng.choice([0, 7, 42, 999, rng.randrange(1000)]),
     "int(min=5,max=50)": lambda rng: rng.randrange(5, 51),
+    "int(fixed_digits=4,signed=True)": lambda rng: rng.choice([0, 7, -7, 42, -42, 999, -999, 9999, rng.randrange(-999, 10000)]),
+    "float(signed=True,min=-5.5,max=5.5)": lambda rng: rng.choice([-5.5, 5.5, 0.0, -0.25, round(rng.uniform(-5.5, 5.5), 2)]),
     "float": lambda rng: rng.choice([0.0, 1.5, 12.25, 1e15, 0.1 + 0.2, round(rng.random() * 1000, 3)]),
     "float(signed=True)": lambda rng: rng.choice([-0.0, -1.5, 3.0, -round(rng.random() * 1000, 3)]),
     'any(foo,bar,"a b")': lambda rng: rng.choice(["foo", "bar", "a b"]),
@@ -134,17 +136,17 @@ def run(shard, rec, rng):
     spy = ConvSpy(rec)
     spy.install()
     reach = Reach(rec, {
-        "Rule._compile_builder": RR.Rule._compile_builder,
-        "Rule.build": RR.Rule.build,
-        "Rule.suitable_for": RR.Rule.suitable_for,
-        "Rule._encode_query_vars": RR.Rule._encode_query_vars,
-        "MapAdapter.build": MP.MapAdapter.build,
-        "MapAdapter._partial_build": MP.MapAdapter._partial_build,
+        "Rule._compile_builder": opt(lambda: RR.Rule._compile_builder),
+        "Rule.build": opt(lambda: RR.Rule.build),
+        "Rule.suitable_for": opt(lambda: RR.Rule.suitable_for),
+        "Rule._encode_query_vars": opt(lambda: RR.Rule._encode_query_vars),
+        "MapAdapter.build": opt(lambda: MP.MapAdapter.build),
+        "MapAdapter._partial_build": opt(lambda: MP.MapAdapter._partial_build),
     })
     cfg = TIERS[shard["_tier"]]
     for it in range(cfg["maps"]):
         nr = rng.randint(1, 4)
-        mode = rng.choice(["plain", "plain", "subdomain", "host", "submount", "subdomainfactory"])
+        mode = rng.choice(["plain", "plain", "subdomain", "host", "submount", "subdomainfactory", "default_subdomain"])
         rules, specs = [], []
         for i in range(nr):
             convs = rng.sample(list(CONV), rng.randint(0, 3))
@@ -162,6 +164,9 @@ def run(shard, rec, rng):
             kw = {}
             if mode == "subdomain":
                 kw["subdomain"] = rng.choice(["", "www", "<string:sd>"])
+            if mode == "default_subdomain":
+                # a map whose default subdomain is "www": rules either follow the default or sit explicitly on the bare domain
+                kw = rng.choice([{}, {"subdomain": ""}, {"subdomain": "api"}])
             if mode == "host":
                 kw["host"] = rng.choice(["h.com", "<string:hh>.h.com"])
             defaults = None
@@ -183,6 +188,8 @@ def run(shard, rec, rng):
                 m = Map([Submount("/sub m", rules)])
             elif mode == "subdomainfactory":
                 m = Map([Subdomain("fac", rules)])
+            elif mode == "default_subdomain":
+                m = Map(rules, default_subdomain="www")
             else:
                 m = Map(rules, host_matching=(mode == "host"))
         except Exception as e:
@@ -196,6 +203,8 @@ def run(shard, rec, rng):
             ad = m.bind("h.com", script, subdomain=rng.choice([None, "", "www"]))
         elif mode == "subdomainfactory":
             ad = m.bind("h.com", script, subdomain=rng.choice([None, "fac"]))
+        elif mode == "default_subdomain":
+            ad = m.bind("h.com", script, subdomain=rng.choice([None, "", "www", "api"]))
         else:
             ad = m.bind("h.com", script)
         for i, (rs, convs, kw, defaults) in enumerate(specs):
@@ -229,6 +238,7 @@ def run(shard, rec, rng):
                         if mode == "host":
                             ad2 = m.bind(host, script)
                         else:
+                            # the host the URL names, delivered to that host: "h.com" is the bare domain (subdomain "")
                             sub = host[: -len("h.com")].rstrip(".") if host.endswith("h.com") else None
                             ad2 = m.bind("h.com", script, subdomain=sub)
                     else:
